@@ -590,6 +590,7 @@ func init() {
 		Run: func(c *Ctx) {
 			c.DomainRules("C05")
 			c.DispatchTable("C05")
+			c.SourceAddress("C05")
 			c.RulerPositions("C05") // the verdict applied to a request is the one computed for it
 			c.ScatterIndexDiscipline("C05")
 			c.SignIffApproved("C05", map[string]bool{"SignGeneric": true, "Multisign": true})
